@@ -259,6 +259,8 @@ func validKeyListRule(P *Program, R *Report) {
 		}
 	})
 	R.decide(rule, kVKBuild+":GroupPrime", "the prover publishes the group prime it generated and hashed", pub, "", P.Pos(bf.Pos()))
+	asppCommitmentsHashedRule(P, R, rule)
+	pedersenCommitHashedRule(P, R, rule)
 	// n and GroupPrime in the list on both sides
 	R.decide(rule, "list:n-and-group", "the modulus n and the group prime are part of the hashed list on both sides",
 		strings.Contains(strings.Join(vs, ","), "append(GroupPrime),append(n)") && strings.Contains(strings.Join(bs, ","), "append(GroupPrime),append(n)"), "", "")
@@ -987,4 +989,157 @@ func rangeParametersRule(P *Program, R *Report) {
 		}
 	}
 	R.decide(rule, "keyproof.primeProofStructure:generator-range-copies", "the prover's, the simulator's and the verifier's copies of the generator range structure use the same l2", same, strings.Join(gen, " | "), "")
+}
+
+// asppCommitmentsHashedRule (part of C17.b): the first messages of the almost-safe-prime-product proof are bound
+// by the Fiat-Shamir challenge on both sides: the verifier appends every element of proof.Commitments to the
+// hashed list, the prover appends each commitment it later publishes, and what it publishes is that list.
+func asppCommitmentsHashedRule(P *Program, R *Report, rule string) {
+	const kx, kb, kp = "keyproof.almostSafePrimeProductExtractCommitments", "keyproof.almostSafePrimeProductBuildCommitments", "keyproof.almostSafePrimeProductBuildProof"
+	ap := "<keyproof.AlmostSafePrimeProductProof>"
+	if fx := mustFunc(P, R, rule, kx); fx != nil {
+		ok := false
+		for _, r := range returnsOf(fx) {
+			if c, isC := r.Results[0].(*ssa.Call); isC && isCallTo(c, "builtin:append") && desc(c.Call.Args[0]) == "arg#0" && desc(c.Call.Args[1]) == ap+".Commitments" {
+				ok = true
+			} else {
+				ok = false
+				break
+			}
+		}
+		R.decide(rule, kx+":all-commitments", "the verifier appends every commitment of the proof to the hashed list", ok, "", P.Pos(fx.Pos()))
+	}
+	if fq := mustFunc(P, R, rule, "keyproof.quasiSafePrimeProductExtractCommitments"); fq != nil {
+		ok := false
+		for _, c := range callsIn(fq) {
+			if calleeName(c) == kx && desc(c.Common().Args[0]) == "arg#0" && desc(c.Common().Args[1]) == "<keyproof.QuasiSafePrimeProductProof>.ASPPproof" {
+				for _, r := range returnsOf(fq) {
+					if r.Results[0] == c.Value() {
+						ok = true
+					}
+				}
+			}
+		}
+		R.decide(rule, FuncKey(fq)+":forwards", "the quasi-safe-prime-product step forwards the list extended by the ASPP commitments", ok, "", P.Pos(fq.Pos()))
+	}
+	if fb := mustFunc(P, R, rule, kb); fb != nil {
+		// in one loop: list = append(list, com) and commit.commitments = append(commit.commitments, com) with the same com
+		var listElem, pubElem ssa.Value
+		var listLoop, pubLoop *ssa.BasicBlock
+		for _, c := range callsIn(fb) {
+			call, isC := c.(*ssa.Call)
+			if !isC || !isCallTo(call, "builtin:append") {
+				continue
+			}
+			elem := appendedSingle(call)
+			if elem == nil {
+				continue
+			}
+			l := innermostLoopOf(call.Block())
+			if l == nil {
+				continue
+			}
+			roots := sliceRoots(call.Call.Args[0])
+			isList := false
+			for _, r := range roots {
+				if desc(r) == "arg#0" {
+					isList = true
+				}
+			}
+			if isList {
+				listElem, listLoop = elem, l.Header
+			} else if strings.Contains(desc(call.Call.Args[0]), "commitments") {
+				pubElem, pubLoop = elem, l.Header
+			}
+		}
+		R.decide(rule, kb+":hashed-is-published", "each commitment the prover hashes is the one it stores for publication (same value, same loop)", listElem != nil && pubElem != nil && siteOf(listElem) == siteOf(pubElem) && listLoop == pubLoop,
+			fmt.Sprintf("hashed %s, published %s", descOrNil(listElem), descOrNil(pubElem)), P.Pos(fb.Pos()))
+		bounds := loopConstBound(fb)
+		R.decide(rule, kb+":iterations", "the prover commits almostSafePrimeProductIters (250) times", len(bounds) == 1 && bounds[0] == 250, fmt.Sprint(bounds), P.Pos(fb.Pos()))
+	}
+	if fp := mustFunc(P, R, rule, kp); fp != nil {
+		ok := false
+		allInstrs(fp, func(i ssa.Instruction) {
+			if st, isSt := i.(*ssa.Store); isSt {
+				if fa, isFA := st.Addr.(*ssa.FieldAddr); isFA && typeKey(fa.X.Type()) == "keyproof.AlmostSafePrimeProductProof" && fieldName(fa.X.Type(), fa.Field) == "Commitments" {
+					ok = strings.HasSuffix(desc(st.Val), ".commitments")
+				}
+			}
+		})
+		R.decide(rule, kp+":publishes-hashed", "the proof's Commitments are the commitments recorded while hashing", ok, "", P.Pos(fp.Pos()))
+	}
+}
+
+// pedersenCommitHashedRule: the Pedersen commitment is part of the hashed list on both sides.
+func pedersenCommitHashedRule(P *Program, R *Report, rule string) {
+	for _, k := range []struct{ fn, want, what string }{
+		{"keyproof.(*pedersenStructure).commitmentsFromProof", "<keyproof.PedersenProof>.Commit", "the verifier appends the proof's Commit to the hashed list"},
+		{"keyproof.(*pedersenStructure).commitmentsFromSecrets", "new:keyproof.pedersenCommit.commit", "the prover appends its commitment to the hashed list"},
+	} {
+		fn := mustFunc(P, R, rule, k.fn)
+		if fn == nil {
+			continue
+		}
+		ok := false
+		for _, c := range callsIn(fn) {
+			call, isC := c.(*ssa.Call)
+			if !isC || !isCallTo(call, "builtin:append") {
+				continue
+			}
+			if e := appendedSingle(call); e != nil && desc(e) == k.want {
+				for _, r := range sliceRoots(call.Call.Args[0]) {
+					if strings.HasPrefix(desc(r), "arg#") {
+						ok = true
+					}
+				}
+			}
+		}
+		// ... and the extended list is what the representation proof continues from
+		okFwd := false
+		for _, r := range returnsOf(fn) {
+			if c, _ := callAndResult(r.Results[0]); c != nil {
+				for _, a := range c.Call.Args {
+					if ap, isAp := a.(*ssa.Call); isAp && isCallTo(ap, "builtin:append") {
+						okFwd = true
+					}
+				}
+			}
+		}
+		R.decide(rule, k.fn+":commit-hashed", k.what+" and continues from the extended list", ok && okFwd, "", P.Pos(fn.Pos()))
+	}
+}
+
+func descOrNil(v ssa.Value) string {
+	if v == nil {
+		return "<none>"
+	}
+	return desc(v)
+}
+
+// appendedSingle: append(s, x) with exactly one appended element x.
+func appendedSingle(c *ssa.Call) ssa.Value {
+	sl, ok := c.Call.Args[1].(*ssa.Slice)
+	if !ok {
+		return nil
+	}
+	arr, ok := sl.X.(*ssa.Alloc)
+	if !ok {
+		return nil
+	}
+	var elem ssa.Value
+	n := 0
+	for _, r := range referrersOf(arr) {
+		if ia, ok := r.(*ssa.IndexAddr); ok {
+			for _, rr := range referrersOf(ia) {
+				if st, ok := rr.(*ssa.Store); ok {
+					elem = st.Val
+					n++
+				}
+			}
+		}
+	}
+	if n != 1 {
+		return nil
+	}
+	return elem
 }
